@@ -398,3 +398,69 @@ func RawRoundTrip(addr string, raw []byte, method string, timeout time.Duration)
 	res.Raw = captured.Bytes()
 	return res
 }
+
+// ------------------------------------------------------------------------------------------
+// per-scenario tracers (for scenarios that run in parallel, each with its own agent process)
+// ------------------------------------------------------------------------------------------
+
+// Tracer appends events to its own NDJSON file; processes started for the scenario get the same
+// file through VERIF_TRACE, so the file is the scenario's totally ordered trace.
+type Tracer struct {
+	Path string
+	mu   sync.Mutex
+	f    *os.File
+	seq  int
+}
+
+// NewTracer creates a scenario trace file.
+func NewTracer(name string) *Tracer {
+	dir := Scratch("trace")
+	p := filepath.Join(dir, name+".ndjson")
+	f, err := os.OpenFile(p, os.O_APPEND|os.O_CREATE|os.O_WRONLY, 0644)
+	if err != nil {
+		panic(err)
+	}
+	return &Tracer{Path: p, f: f}
+}
+
+// Emit appends one event.
+func (t *Tracer) Emit(ev string, kv ...interface{}) {
+	t.mu.Lock()
+	defer t.mu.Unlock()
+	t.seq++
+	rec := map[string]interface{}{"ev": ev, "seq": t.seq, "src": "harness"}
+	for i := 0; i+1 < len(kv); i += 2 {
+		rec[kv[i].(string)] = kv[i+1]
+	}
+	b, _ := json.Marshal(rec)
+	t.f.Write(append(b, '\n'))
+}
+
+// Env is the environment that makes a child process trace into this file.
+func (t *Tracer) Env() []string { return []string{"VERIF_TRACE=" + t.Path} }
+
+// MergeInto appends the scenario trace to the run's main trace (VERIF_TRACE of the driver).
+func (t *Tracer) MergeInto() {
+	t.mu.Lock()
+	defer t.mu.Unlock()
+	t.f.Close()
+	b, err := os.ReadFile(t.Path)
+	if err != nil {
+		return
+	}
+	main := os.Getenv("VERIF_TRACE")
+	if main == "" {
+		return
+	}
+	f, err := os.OpenFile(main, os.O_APPEND|os.O_CREATE|os.O_WRONLY, 0644)
+	if err != nil {
+		return
+	}
+	mergeMu.Lock()
+	f.Write(b)
+	mergeMu.Unlock()
+	f.Close()
+	os.RemoveAll(filepath.Dir(t.Path))
+}
+
+var mergeMu sync.Mutex
